@@ -87,6 +87,7 @@ structure NsRec where
   owner : String
   ttl : Nat
   kind : NKind
+  fresh : Bool := false        -- relayed from the upstream answer of this op
 deriving Repr
 
 def NsRec.toRR (now : Int) (n : NsRec) : RR :=
@@ -176,7 +177,7 @@ def nsIsSOA (n : NsRec) : Bool := match n.kind with | .soa _ => true | _ => fals
 
 def itemsToNs (id : Nat) (owner : String) (items : List Item) : List NsRec :=
   (items.zipIdx).map fun (it, i) =>
-    { rid := (id, i), owner := owner, ttl := it.ttl,
+    { rid := (id, i), owner := owner, ttl := it.ttl, fresh := true,
       kind := match it.kind with
         | 's' => .soa it.a.toNat
         | 'g' => .sig it.a
@@ -238,7 +239,7 @@ def serve (cfg : Cfg) (script : List (String × Spec)) (now : Int) :
         -- boundRequestToEntryLifetime
         let mcut := boundCut none (some he.e.hardUntil)
         let r0 : Reply := { ans := if he.hasAns then [name] else [], ansTTL := if he.hasAns then [(name, shown)] else [],
-                            ns := he.ns.map (fun n => { n with ttl := shown }), nx := he.nx,
+                            ns := he.ns.map (fun n => { n with ttl := shown, fresh := false }), nx := he.nx,
                             expired := he.ns.any nsExpired, lastCname := he.target,
                             hasType := he.hasAns && he.target.isNone }
         if he.nx then (st, some r0, mcut) else
@@ -271,7 +272,8 @@ def serve (cfg : Cfg) (script : List (String × Spec)) (now : Int) :
         let msg : Msg := { answer := sp.ans.map (Item.toRR now), ns := r.ns.map (NsRec.toRR now) }
         let ttl := admitTTL cfg msg rt now isSc
         let he : HEntry := { id := id, e := { stored := now, ttl := ttl, cut := mcut }, hasAns := hasAns,
-                             ns := r.ns, target := if sp.kind == 'c' then some sp.tgt else none, nx := r.nx }
+                             ns := r.ns.map (fun n => { n with fresh := false }),
+                             target := if sp.kind == 'c' then some sp.tgt else none, nx := r.nx }
         (setSlot st (name, isSc) he, some r, mcut)
 
 /-! ### printing -/
@@ -296,10 +298,10 @@ def replyTokens (r : Reply) : String :=
       | none => p ++ ":?"
   let owners := dedupStr (r.ns.map (·.owner))
   let nsToks := owners.map fun o =>
-    if r.fresh.contains o then o ++ "~*"
-    else
-      let ttls := (r.ns.filter (·.owner == o)).foldl (fun acc n => insertSorted n.ttl acc) []
-      o ++ "~" ++ joinWith "/" (ttls.map toString)
+    let mine := r.ns.filter (·.owner == o)
+    let ttls := (mine.filter (!·.fresh)).foldl (fun acc n => insertSorted n.ttl acc) []
+    let vals := (if mine.any (·.fresh) then ["*"] else []) ++ ttls.map toString
+    o ++ "~" ++ joinWith "/" vals
   joinWith " " (ansToks ++ nsToks)
 
 def names : List String := ["n0", "n1", "n2", "n3", "n4", "n5"]
@@ -389,7 +391,7 @@ def stepHist (st : State) (w : List String) : State × String :=
             let msg : Msg := { answer := sp.ans.map (Item.toRR now), ns := nsRecs.map (NsRec.toRR now) }
             let ttl := replaceTTL (genCfg h.ecsCap) msg rt now
             let he : HEntry := { id := id, e := { stored := now, ttl := ttl, cut := sp.lease.map fun l => now + l * S },
-                                 hasAns := hasAns, ns := nsRecs, target := if sp.kind == 'c' then some sp.tgt else none, nx := nx }
+                                 hasAns := hasAns, ns := nsRecs.map (fun n => { n with fresh := false }), target := if sp.kind == 'c' then some sp.tgt else none, nx := nx }
             let h := setSlot h (name, false) he
             ({ st with h := h }, "pf" ++ listing h id0 now)
           else ({ st with h := h }, "pf")
